@@ -907,7 +907,7 @@ func (g *fgen) event() *genEvent {
 		fb[i] = "abcdefghijklmnopqrstuvwxyz/_-.0123456789"[r.IntN(40)]
 	}
 	e.File = string(fb)
-	e.Line = []int{0, 1, 9, 10, 99, 1000, 65535, 65536, 123456}[r.IntN(9)]
+	e.Line = []int{0, 1, 9, 10, 99, 1000, 65535, 65536, 123456, 9999999999, 10000000000, 12345678901, math.MaxInt64, -1, math.MinInt64}[r.IntN(15)]
 	e.Tag = []string{"_def", "_app_def", "abc", "a_b_c_d", "_com_request_in", "x1_y2"}[r.IntN(6)]
 	if r.IntN(3) == 0 {
 		e.CtxString = []string{"trace-0a88", "ctx string with spaces", "req=1;user=2", "ünï"}[r.IntN(4)]
